@@ -21,7 +21,7 @@ class Sched:
     def start(self, fns):
         ths = []
         for name, fn in fns.items():
-            self.alive.add(name); ths.append(threading.Thread(target=self._run, args=(name, fn)))
+            self.alive.add(name); ths.append(threading.Thread(target=self._run, args=(name, fn), daemon=True))
         self.current = self._next()
         for th in ths: th.start()
         for th in ths: th.join(30)
@@ -92,6 +92,7 @@ def run(prop, seed, budget, ctx):
     rnd = random.Random(seed)
     tl = threading.local(); state = {"sched": None}
     failures, hist, distinct, samples, evaluations = [], collections.Counter(), set(), [], 0
+    stuck = False           # a schedule left threads parked (a deadlock): later modes are skipped
 
     class YDict(dict):
         def __contains__(self, k):
@@ -192,12 +193,17 @@ def run(prop, seed, budget, ctx):
         finished = sched.start({"A": mk("A"), "B": mk("B")})
         state["sched"] = None
         evaluations += 1; distinct.add(("lazy", i, "".join(schedule[:20])))
+        if not finished:
+            failures.append({"kind": "P", "k_ok": True, "mode": "lazy-reference", "class": lazy_src[4 + 5 * i: 8 + 5 * i], "schedule": "".join(schedule),
+                             "results": res, "deadlock": True, "yield_points": sched.steps, "why": ["threads-did-not-finish"]})
+            stuck = True; break
         want = repr(deserialize(LN, datum, aliaser=yal))
         if not finished or res != {"A": want, "B": want}:
             failures.append({"kind": "P", "k_ok": True, "mode": "lazy-reference", "class": lazy_src[4 + 5 * i: 8 + 5 * i], "schedule": "".join(schedule),
                              "results": res, "sequential": want, "deadlock": not finished, "yield_points": sched.steps,
                              "why": ["concurrent-first-use-differs-from-sequential" if finished else "threads-did-not-finish"]})
         hist["lazy-yield-points:%d" % min(sched.steps, 9)] += 1
+        if not finished: stuck = True; break
     # (i-c) JSON schema generation by two or three threads under generated schedules: yield points are injected through a
     # user default_conversion, which every visitor calls for every visited type; each result must be the sequential one
     from apischema.json_schema import serialization_schema
@@ -218,6 +224,7 @@ def run(prop, seed, budget, ctx):
                     "@dataclass", f"class SHold{i}:", f"    foo: SFoo{i}", f"    items: List[SItem{i}] = field(default_factory=list)", f"    again: Optional[SFoo{i}] = None", ""]
     smod = build_module(sch_src, f"recsch{seed}"); sns = dict(vars(smod))
     for i in range(ns_):
+        if stuck: break
         Item, Foo, Hold = sns[f"SItem{i}"], sns[f"SFoo{i}"], sns[f"SHold{i}"]
         jobs = {"A": lambda: deserialization_schema(List_(Item), default_conversion=ydc), "B": lambda: deserialization_schema(Foo, default_conversion=ydc),
                 "C": lambda: serialization_schema(Hold, default_conversion=yds)}
@@ -243,6 +250,7 @@ def run(prop, seed, budget, ctx):
                              "results": res, "sequential": want, "deadlock": not finished, "yield_points": sched.steps,
                              "why": ["concurrent-first-use-differs-from-sequential" if finished else "threads-did-not-finish"]})
         hist["schema-yield-points:%d" % min(sched.steps // 10 * 10, 90)] += 1
+        if not finished: stuck = True; break
     # (i-d) lazily registered conversions (serializer(lazy=...) / deserializer(lazy=...)): the user callable is slow (yield points inside);
     # threads make the first use of the class - serialize, deserialize, schema - while it is being evaluated; twin classes registered
     # the same way and used sequentially give the expected results
@@ -265,6 +273,7 @@ def run(prop, seed, budget, ctx):
     # (the recursion analysis runs under the package's lock and evaluates lazy conversions: a thread blocked on it yields to the scheduler)
     if orig_lock is not None: recursion._lock = SchedLock(lambda: state["sched"], tl)
     for i in range(nz):
+        if stuck: break
         def jobs_for(pre):
             M, W = zns[f"{pre}M{i}"], zns[f"{pre}W{i}"]
             return {"A": lambda: repr(serialize(M, M(1250))), "B": lambda: json.dumps(serialization_schema(M), sort_keys=True),
@@ -285,6 +294,11 @@ def run(prop, seed, budget, ctx):
         state["sched"] = None
         evaluations += 1; distinct.add(("lazy-conversion", i, "".join(names), "".join(schedule[:20])))
         after = {}
+        if not finished:
+            # parked threads may hold locks of the package: nothing more can be run safely in this process
+            failures.append({"kind": "P", "k_ok": True, "mode": "lazy-conversion", "jobs": names, "schedule": "".join(schedule), "results": res, "sequential": want,
+                             "deadlock": True, "yield_points": sched.steps, "why": ["threads-did-not-finish"]})
+            stuck = True; break
         for k, fn in jobs.items():
             try: after[k] = fn()
             except BaseException as e: after[k] = "EXC:" + type(e).__name__ + ":" + str(e)[:60]
@@ -297,7 +311,7 @@ def run(prop, seed, budget, ctx):
     # (ii) stress on the unpatched package: real pre-emption
     old = sys.getswitchinterval(); sys.setswitchinterval(1e-6)
     try:
-        rounds = 12 * budget
+        rounds = 0 if stuck else 12 * budget
         src = list(HEADER)
         for i in range(rounds):
             j = 10_000 + i
